@@ -371,6 +371,29 @@ func c12Sockaddr(c *enumx.Ctx) {
 			}
 		}
 	}
+	// address CLASSES x scope ids x flow: what a connect to a link-local / multicast / site-local neighbour logs (the
+	// scope id names the interface); the address reported is the 16 bytes the kernel wrote, whatever class they are in
+	classes := []string{"::", "::1", "fe80::1", "fe80::1ff:fe23:4567:890a", "febf:ffff::1", "fec0::1", "fc00::1", "fd12:3456:789a::1", "ff02::1", "ff01::fb", "ff05::1:3", "2002:c000:204::1", "2001:db8::1", "::ffff:10.1.2.3", "::10.1.2.3", "64:ff9b::a01:203", "2607:f8b0:4004:80b::200e"}
+	for _, cl := range classes {
+		a := mk(cl)
+		for _, scope := range []uint32{0, 1, 2, 3, 255, 256, 65536, 1<<31 - 1, 1 << 31, 1<<32 - 1} {
+			for _, flow := range []uint32{0, 7} {
+				if !c.Mine() {
+					continue
+				}
+				w := map[string]string{"family": "ipv6", "port": "5353"}
+				if flow > 0 {
+					w["flow"] = strconv.Itoa(int(flow))
+				}
+				full := saddrIn6(5353, flow, a, scope)
+				checkSaddr(c, full, w, net.IP(a[:]))
+				checkSaddr(c, full+"00000000", w, net.IP(a[:]))
+				if scope == 0 {
+					checkSaddr(c, full[:48], w, net.IP(a[:]))
+				}
+			}
+		}
+	}
 	// every address LENGTH the kernel can log: it writes exactly addrlen bytes - 16..128 for AF_INET, from 24
 	// (SIN6_LEN_RFC2133, no scope id) to 128 for AF_INET6; extra bytes are zero padding of sockaddr_storage
 	for n := 16; n <= 128; n++ {
@@ -449,7 +472,9 @@ func c12Syscalls(c *enumx.Ctx) {
 				}
 				body := fmt.Sprintf("arch=%x syscall=%d success=yes exit=0 a0=0 items=0 pid=1 exe=\"/x\"", uint32(a), n)
 				if typ == 1326 {
-					body = fmt.Sprintf("auid=1000 uid=0 gid=0 ses=1 pid=1 comm=\"x\" exe=\"/x\" sig=31 arch=%x syscall=%d compat=0 ip=0x7f code=0x0", uint32(a), n)
+					// compat= says whether the task runs in compatibility mode; the arch field already names the ABI the number
+					// belongs to
+					body = fmt.Sprintf("auid=1000 uid=0 gid=0 ses=1 pid=1 comm=\"x\" exe=\"/x\" sig=31 arch=%x syscall=%d compat=%d ip=0x7f code=0x0", uint32(a), n, n%2)
 				}
 				raw := hdr + body
 				c.Begin(func() string { return fmt.Sprintf("Parse(%d, %q)", typ, raw) })
